@@ -118,7 +118,7 @@ def impl(t, case):
     shape = lambda v: Con("ShNone") if v is None else (Con("ShMany") if isinstance(v, tuple) else Con("ShOne"))
     kids = lambda v: [] if v is None else ([b.addr(x) for x in v] if isinstance(v, tuple) else [b.addr(v)])
     import dataclasses
-    return Con("Acc", combos, pd,
+    res = Con("Acc", combos, pd,
                [edge(b, c, f, i) for c, f, i in n.get_child_nodes_with_field()],
                first.get("gcnf") if "gcnf" in first else [edge(b, c, f, i) for c, f, i in n.get_child_nodes_with_field(sort_keys=True)],
                [b.addr(c) for c in n.get_child_nodes()],
@@ -128,6 +128,25 @@ def impl(t, case):
                [[f.name, shape(v), kids(v)] for v, f in (first["icf"] if "icf" in first else n.iter_child_fields(sort_keys=True))],
                [f.name for f in cls.get_child_fields()],
                [f.name for f in dataclasses.fields(cls) if f.name not in ("id", "content_id", "origin")])
+    # implementation-only probe: a second instance that differs from this one only in a NON-comparable property (same id,
+    # same content) reports its own values through every accessor (seeded change C12-11: results memoised per node, i.e.
+    # per hash / ==)
+    for f in u.merged(type(n).__name__):
+        if f.role == "Prop" and not f.compare and f.init and f.ptype in ("int", "str", "bool"):
+            v = getattr(n, f.name)
+            nv = (not v) if isinstance(v, bool) else (v + 1 if isinstance(v, int) else (v + "x" if isinstance(v, str) else None))
+            if nv is None:
+                continue
+            try:
+                n2 = n.replace(**{f.name: nv})       # ASTNode.replace: the new node takes over the id
+            except Exception:  # noqa: BLE001
+                break
+            got = n2.to_properties_dict().get(f.name, "<missing>")
+            got2 = dict((g.name, val) for val, g in n2.get_properties()).get(f.name, "<missing>")
+            if got != nv or got2 != nv or n.to_properties_dict().get(f.name) != v:
+                return Con("SecondInstanceReportsFirstValues", f.name)
+            break
+    return res
 
 
 CLAUSES = ["get_properties/get_property_fields", "to_properties_dict", "get_child_nodes_with_field", "get_child_nodes_with_field(sorted)",
